@@ -100,6 +100,12 @@ func c10History(t *testing.T, idx int, seed uint64) {
 				if r.Intn(3) > 0 {
 					co.User, co.Pass = "user-"+strings.Repeat("x", r.Intn(120)), "p"+strings.Repeat("y", r.Intn(120))
 				}
+				// every third CONNECT carries a will (on a topic nobody subscribes to): the session flags
+				// stand next to the will flags in the CONNECT
+				if r.Intn(3) == 0 {
+					co.Will = &rc.Packet{Topic: []byte("c10will/" + id), QoS: byte(r.Intn(3)), Retain: r.Bool(), Payload: []byte("gone")}
+					out.Count("c10.connects_with_will", 1)
+				}
 				nc, ack := w.connectB(id, co)
 				if ack == nil || ack.ReturnCode != 0 {
 					fail("c10:connect", fmt.Sprintf("%s: no CONNACK 0 (%v)", id, ack))
